@@ -1,8 +1,10 @@
 use crate::fw::CheckDef;
+pub mod c03;
 pub mod c28;
 
 pub fn registry() -> Vec<CheckDef> {
     let mut v = vec![];
+    v.push(c03::def());
     v.push(c28::def());
     v
 }
